@@ -4,6 +4,7 @@
 -/
 import HealSparse.Lemmas.Core
 import HealSparse.Lemmas.Coverage
+import HealSparse.Lemmas.Ranges
 import HealSparse.Model.Ranges
 import HealSparse.Props.C04
 import HealSparse.Props.C01
@@ -19,13 +20,13 @@ def RangesOk (c : Cfg) (R : List (Nat × Nat)) : Prop := ∀ ab ∈ R, ab.1 ≤ 
 /-- `expand` lists exactly the pixels inside the ranges. -/
 theorem expand_mem (R : List (Nat × Nat)) (p : Nat) :
     p ∈ expand R ↔ ∃ ab ∈ R, ab.1 ≤ p ∧ p < ab.2 := by
-  sorry
+  exact expand_mem' R p
 
 /-- The slice path preserves the storage layout. -/
 theorem inv_updateRanges (c : Cfg) (vc : VCfg V) (s : State V) (h : V → V)
     (R : List (Nat × Nat)) (na : Bool) (hs : Inv c vc s) (hR : RangesOk c R) :
     Inv c vc (updateRanges c vc s h R na) := by
-  sorry
+  exact (updateRanges_spec c vc s h R na hs hR).1
 
 /-- **Refinement of the slice path**: every pixel gets the cell effect `h` applied once per
     range row containing it, in row order (and nothing when `no_append` and uncovered). -/
@@ -35,7 +36,7 @@ theorem updateRanges_refines (c : Cfg) (vc : VCfg V) (s : State V) (h : V → V)
     abs c vc (updateRanges c vc s h R na) p
       = denseUpdate c (abs c vc s) (covered c s) (fun x (_ : Unit) => h x)
           ((expand R).map fun q => (q, ())) na p := by
-  sorry
+  exact (updateRanges_spec c vc s h R na hs hR).2.2 p hp
 
 /-- **The two paths agree** (operations without pre-pass: replace, or, and, add over a zero
     sentinel, None-clear): updating with ranges gives the same value at every pixel as
@@ -45,7 +46,12 @@ theorem ranges_eq_explicit {W : Type} (c : Cfg) (vc : VCfg V) (s : State V) (f :
     (p : Nat) (hp : p < c.npix) :
     abs c vc (updateRanges c vc s (cellEffect none f w) R na) p
       = abs c vc (updatePix c vc s none f ((expand R).map fun q => (q, w)) na) p := by
-  sorry
+  rw [updateRanges_refines c vc s _ R na hs hR p hp]
+  show _ = abs c vc (updateCore c vc s (stageOp id f)
+    (stageList false ((expand R).map fun q => (q, w))) na) p
+  rw [C01.updateCore_refines c vc s _ _ na hs (stageList_expand_lt c false R w hR) p hp]
+  unfold denseUpdate
+  rw [denseFold_stage_none]
 
 /-- The two paths agree for operations with a pre-pass (`add` over a non-zero sentinel)
     when no pixel is addressed twice.  (With overlapping rows the slice path re-applies the
@@ -57,7 +63,12 @@ theorem ranges_eq_explicit_pre_partial {W : Type} (c : Cfg) (vc : VCfg V) (s : S
     (hnd : (expand R).Nodup) (p : Nat) (hp : p < c.npix) :
     abs c vc (updateRanges c vc s (cellEffect (some pre) f w) R na) p
       = abs c vc (updatePix c vc s (some pre) f ((expand R).map fun q => (q, w)) na) p := by
-  sorry
+  rw [updateRanges_refines c vc s _ R na hs hR p hp]
+  show _ = abs c vc (updateCore c vc s (stageOp pre f)
+    (stageList true ((expand R).map fun q => (q, w))) na) p
+  rw [C01.updateCore_refines c vc s _ _ na hs (stageList_expand_lt c true R w hR) p hp]
+  unfold denseUpdate
+  rw [denseFold_stage_some pre f w (expand R) hnd]
 
 /-- The coverage after a range update contains the coverage the explicit update needs,
     and is unchanged under `no_append`. -/
@@ -67,7 +78,12 @@ theorem ranges_covered_superset (c : Cfg) (vc : VCfg V) (s : State V) (h : V →
     (denseCov c (covered c s) ((expand R).map fun q => (q, ())) na k = true →
         covered c (updateRanges c vc s h R na) k = true) ∧
     (na = true → covered c (updateRanges c vc s h R na) k = covered c s k) := by
-  sorry
+  have hc := (updateRanges_spec c vc s h R na hs hR).2.1 k hk
+  refine ⟨fun hd => ?_, fun hna => ?_⟩
+  · rw [hc]
+    exact ranges_covered_aux c s R na hR k hk hd
+  · rw [hc, hna]
+    simp
 
 /-- `hpg.upgrade_pixel_ranges`: shifting both ends left by `g` bits -/
 def upgradeRanges (g : Nat) (R : List (Nat × Nat)) : List (Nat × Nat) :=
@@ -76,7 +92,7 @@ def upgradeRanges (g : Nat) (R : List (Nat × Nat)) : List (Nat × Nat) :=
 /-- A shape with a fixed render resolution covers exactly the children of its rendered pixels. -/
 theorem expand_upgrade (g : Nat) (R : List (Nat × Nat)) (p : Nat) :
     p ∈ expand (upgradeRanges g R) ↔ (p >>> g) ∈ expand R := by
-  sorry
+  exact expand_upgrade' g R p
 
 /-- non-vacuity: a row ending at the last pixel in a non-final row position, a row on a block edge -/
 example : RangesOk ⟨3, 1⟩ [(4, 6), (0, 2), (1, 1)] := by unfold RangesOk; decide
